@@ -160,16 +160,22 @@ class R:
     def __add__(self, o):
         if _arr(o):
             return _elementwise(lambda e: self + e, o)
+        if isinstance(o, _NUM) and o == 0:
+            return self
         return R(self.t + lift_real(o))
 
     def __radd__(self, o):
         if _arr(o):
             return _elementwise(lambda e: e + self, o)
+        if isinstance(o, _NUM) and o == 0:
+            return self
         return R(lift_real(o) + self.t)
 
     def __sub__(self, o):
         if _arr(o):
             return _elementwise(lambda e: self - e, o)
+        if isinstance(o, _NUM) and o == 0:
+            return self
         return R(self.t - lift_real(o))
 
     def __rsub__(self, o):
@@ -297,6 +303,9 @@ class R:
         return MATH.tan(self)
 
     def conjugate(self):
+        return self
+
+    def item(self):
         return self
 
     def __repr__(self):
@@ -433,6 +442,9 @@ class I:
     def sqrt(self):
         return MATH.sqrt(R(z3.ToReal(self.t)))
 
+    def item(self):
+        return self
+
     def __repr__(self):
         return 'I(%s)' % self.t
 
@@ -567,6 +579,36 @@ class Explorer:
         else:
             self.stats.q_unknown += 1
         return s
+
+    def _decide(self, neg):
+        """portfolio for an obligation: incremental solver (short), nlsat tactic on the whole goal, incremental (full)"""
+        fast = min(2000, self.timeout_ms)
+        self.solver.set('timeout', fast)
+        try:
+            r = self._check(neg)
+        finally:
+            self.solver.set('timeout', self.timeout_ms)
+        if r != 'unknown':
+            return r, self.solver
+        self.stats.q_unknown -= 1
+        try:
+            s2 = z3.SolverFor('QF_NRA')
+            s2.set('timeout', self.timeout_ms)
+            s2.add(*self.pc)
+            s2.add(neg)
+            t0 = time.time()
+            r2 = str(s2.check())
+            self.stats.solver_s += time.time() - t0
+        except z3.Z3Exception:
+            r2 = 'unknown'
+        if r2 == 'unsat':
+            self.stats.q_unsat += 1
+            return r2, s2
+        if r2 == 'sat':
+            self.stats.q_sat += 1
+            return r2, s2
+        r = self._check(neg)
+        return r, self.solver
 
     def _add(self, c):
         self.pc.append(c)
@@ -780,7 +822,7 @@ class Explorer:
         else:
             neg = z3.Not(lift_bool(cond))
         _t0 = time.time()
-        r = self._check(neg)
+        r, msolver = self._decide(neg)
         self.stats.label_s[label] = self.stats.label_s.get(label, 0.0) + time.time() - _t0
         if r == 'unsat':
             self.stats.proved[label] = self.stats.proved.get(label, 0) + 1
@@ -788,7 +830,7 @@ class Explorer:
         if r == 'unknown':
             self.stats.unknowns.append(label)
             return None
-        m = self.solver.model()
+        m = msolver.model()
         model = {}
         for n, v in self.names.items():
             val = m.eval(v, model_completion=True)
@@ -1066,24 +1108,38 @@ class _Math:
             self._mono(t, app, prev)
         return self._app('pow10', x, lemma)
 
+    def _root(self, name, x, cons):
+        """algebraic function as a fresh variable constrained by its defining polynomial (keeps queries in pure NRA);
+        functional consistency follows from uniqueness of the root"""
+        t = lift_real(x)
+        seen = self.seen.setdefault(name, {})
+        key = t.get_id()
+        if key not in seen:
+            c = CUR
+            c._fresh += 1
+            v = z3.Real('%s!%d' % (name, c._fresh))
+            seen[key] = (t, v)
+            cons(t, v)
+        return R(seen[key][1])
+
     def sqrt(self, x):
         if not is_sym(x):
             return math.sqrt(x)
 
-        def lemma(t, app, prev):
+        def cons(t, v):
             c = CUR
             c.assume(t >= 0, 'sqrt: non-negative argument')
-            c._add(app >= 0)
-            c._add(app * app == t)
-        return self._app('sqrt', x, lemma)
+            c._add(v >= 0)
+            c._add(v * v == t)
+        return self._root('sqrt', x, cons)
 
     def cbrt(self, x):
         if not is_sym(x):
             return math.copysign(abs(x) ** (1.0 / 3.0), x)
 
-        def lemma(t, app, prev):
-            CUR._add(app * app * app == t)
-        return self._app('cbrt', x, lemma)
+        def cons(t, v):
+            CUR._add(v * v * v == t)
+        return self._root('cbrt', x, cons)
 
     def _trig_pair(self, t):
         s = self.F['sin'](t)
@@ -1137,8 +1193,7 @@ class _Math:
             seen[key] = True
             c = CUR
             s, co = self._trig_pair(app)
-            r = self.F['sqrt'](tx * tx + ty * ty)
-            c._add(z3.And(r >= 0, r * r == tx * tx + ty * ty))
+            r = self.sqrt(R(tx * tx + ty * ty)).t
             c._add(z3.And(r * co == tx, r * s == ty))
             c._add(z3.Implies(z3.And(tx == 0, ty == 0), app == 0))
         return R(app)
